@@ -88,8 +88,31 @@ def _guarded_at_callers(P, fn, pidx, depth):
     return True, "at every call site of the private helper `%s`" % fn.key
 
 
+def check_share_verify_through_core(ctx, P, rule="E4.result"):
+    """A (key share, signature share) pair is accepted only where `core_verify` - with its identity refusals - accepted
+    the decoded points: what `core_signature_share_verify` returns as success is core_verify's own result, or lies behind
+    its Ok verdict (a copy of the pairing check without the guards accepts identity key + identity signature)."""
+    fk = "BlsSignatureCore::core_signature_share_verify"
+    f = ctx.need_fn(rule, fk, P)
+    if f is None:
+        return
+    ev = evaluate(f)
+    is_cv = lambda t: t.op == "call" and B.cname(t) == "BlsSignatureCore::core_verify"
+    for rb in sorted(ev.ret_at):
+        rv = strip_sites(ev.ret_at[rb])
+        for a_ in (list(rv.a[0]) if rv.op == "phi" else [rv]):
+            if a_.op == "agg" and a_.a[0][0] == "adt" and len(a_.a[0]) > 2 and a_.a[0][2] == "Err":
+                continue
+            if a_.op == "call" and B.cname(a_) == "FromResidual::from_residual":
+                continue
+            via_value = any(is_cv(t) for t in subterms(a_))
+            via_path = any(hasattr(x, "op") and any(is_cv(t) for t in subterms(strip_sites(x))) for atom, pol in G.path_literals(ev, rb, P, checks_only=True) for x in atom[2:])
+            ctx.ob(rule, "%s/through-core_verify@bb%d" % (fk, rb), via_value or via_path, "share verification succeeds only through core_verify (result is core_verify's=%s, exit behind its verdict=%s): %s" % (via_value, via_path, show(a_, 3)), where=where(f, rb))
+
+
 def run(ctx):
     P = ctx.P
+    check_share_verify_through_core(ctx, P)
     for fk, kind, subj in RESULT_GUARDS:
         R.check_result_guard(ctx, "E4.result", P, fk, kind, subj)
     for fk, kind, subj in FLAG_GUARDS:
